@@ -562,3 +562,72 @@ contract(
     ensures=DROP_POST + DROP_POST_ABOVE,
     loops=_drop_loops(),
 )
+
+
+# ---------------------------------------------------------------------------------------------
+# C10 ("serialising then re-reading preserves ..."): the constructors that read a tree from a file
+# return the tree that is in the file NOW.  Bounded: random trees written, one after the other, to the
+# SAME path (a history: what was read from that path earlier must not matter) and read back through
+# from_precomputed_stats / from_json_file / from_str.
+# ---------------------------------------------------------------------------------------------
+_REREAD_DIR = []
+
+
+def _reread_dir():
+    import atexit
+    import shutil
+    import tempfile
+    if not _REREAD_DIR:
+        d = tempfile.mkdtemp(prefix='verif_reread_', dir='/tmp')
+        _REREAD_DIR.append(d)
+        atexit.register(shutil.rmtree, d, True)
+    return _REREAD_DIR[0]
+
+
+def _reread(tree, how):
+    """write `tree` (a valid tree dict) to the one path used for `how`, read it back"""
+    import json
+    import os
+    import warnings
+    import h5py
+    from cell_type_mapper.taxonomy.taxonomy_tree import TaxonomyTree
+    d = _reread_dir()
+    with warnings.catch_warnings():
+        warnings.simplefilter('ignore')
+        text = TaxonomyTree(data=tree).to_str()
+        if how == 'stats':
+            p = os.path.join(d, f'stats_{os.getpid()}.h5')
+            with h5py.File(p, 'w') as f:
+                f.create_dataset('taxonomy_tree', data=text.encode('utf-8'))
+            back = TaxonomyTree.from_precomputed_stats(p)
+        elif how == 'json':
+            p = os.path.join(d, f'tree_{os.getpid()}.json')
+            with open(p, 'w') as f:
+                f.write(text)
+            back = TaxonomyTree.from_json_file(p)
+        else:
+            back = TaxonomyTree.from_str(text)
+    return json.loads(back.to_str())
+
+
+def _gen_reread(rng, size):
+    t = gen_tree(rng, size + 2)
+    while not REF_ENV['ref_wf'](t):
+        t = gen_tree(rng, size + 2)
+    return dict(tree=t, how=rng.choice(['stats', 'stats', 'json', 'str']))
+
+
+contract(
+    M + 'from_precomputed_stats#reread',
+    properties=['C10'], mode='bounded',
+    native=dict(call=_reread, gen=_gen_reread, env=dict(REF_ENV, json=__import__('json')),
+                bound='random valid trees (<= 5 levels) written one after the other to the same HDF5 / JSON path and '
+                      'read back (from_precomputed_stats, from_json_file, from_str)'),
+    params=dict(tree='Opaque', how='Name'),
+    returns='Opaque',
+    ensures=[
+        "result['hierarchy'] == tree['hierarchy']",
+        "all(dict((n, list(result[l][n])) for n in result[l]) == dict((n, list(tree[l][n])) for n in tree[l]) "
+        "for l in tree['hierarchy'])",
+    ],
+)
